@@ -890,17 +890,20 @@ def assert_only_blocks(fn):
         t_t = t["otherwise"] if "0" in tg else tg.get("1")
         if f_t is None or t_t is None:
             continue
+        # the false edge goes to a trivial block (`_t = (); goto J`): J is where both ways meet again
         j = f_t
-        for _ in range(6):
-            jb = fn.blocks[j]
-            if jb["term"] and jb["term"]["t"] == "goto" and all(st["s"] != "assign" or (st["rhs"]["rv"] == "use" and st["rhs"]["a"].get("k") == "c") for st in jb["stmts"]):
-                j = jb["term"]["target"]
-            else:
-                break
+        jb = fn.blocks[j]
+        if jb["term"] and jb["term"]["t"] == "goto" and len(fn.preds()[j]) == 1 and \
+                all(st["s"] != "assign" or (st["rhs"]["rv"] == "use" and st["rhs"]["a"].get("k") == "c") for st in jb["stmts"]):
+            j = jb["term"]["target"]
         region = fn.reachable(t_t, avoid={j})
         has_assert_panic = any(fn.blocks[x]["term"] and fn.blocks[x]["term"]["t"] == "call" and fn.blocks[x]["term"]["target"] is None
                                and set(macro_names(fn.blocks[x]["term"])) & {"debug_assert", "debug_assert_eq", "debug_assert_ne"} for x in region)
-        if has_assert_panic:
+        # single entry (the cfg test), no function exit inside, every way out is the join or the assertion failure
+        preds = fn.preds()
+        closed = all(all(p_ in region or p_ == b for p_ in preds[x]) for x in region) and not any(x in region for x in fn.return_blocks())
+        exits = {s_ for x in region for s_ in fn.normal_succs(x) if s_ not in region}
+        if has_assert_panic and closed and exits <= {j}:
             out |= region
     fn._assert_only = out
     return out
